@@ -65,7 +65,9 @@ def compare_rows(ctx, prob, rows_eff, ll, spec, posterior=False):
         if not np.isfinite(ll[i]):
             # float64 cannot factor a system whose prior variance exceeds the data variance by more than ~1e15
             # (e.g. a quadratic trend referred to BMJD 0 with t_ref=False): not judged, counted
-            kap = og.evaluate(prob, row)["kappa"]
+            # (the conditioning of what the kernel actually factors: with recorded defect F1 it leaves the jitter out of
+            # the data variance, which can raise the ratio by orders of magnitude)
+            kap = max(og.evaluate(prob, row, fl)["kappa"] for fl in og.subsets(prob.applicable_flags(row)))
             if kap > 1e14:
                 ctx.classes["numerically singular configuration (kappa>1e14): non-finite value not judged"] += 1
                 continue
@@ -74,7 +76,9 @@ def compare_rows(ctx, prob, rows_eff, ll, spec, posterior=False):
             info["hi_e"] = True
             continue
         ev = og.evaluate(prob, row)
-        if ev.get("singular"):
+        if ev.get("singular") or ev["kappa"] > 1e14:
+            # prior variance over data variance beyond the resolution of float64 (eps * kappa > 0.02): whatever finite value
+            # comes out is dominated by round-off
             ctx.classes["numerically singular configuration: no reference value, not judged"] += 1
             continue
         if row["s"] > 0:
